@@ -366,6 +366,9 @@ func (p *parser) parseOneVariation() (vari font.Variation, err error) {
 		return
 	}
 	p.skipSpaces()
+	if p.pos != len(p.data) {
+		return vari, errors.New("unexpected characters after the variation value")
+	}
 	return
 }
 
@@ -399,17 +402,20 @@ func (p *parser) parseFeatureIndices() (start, end int, err error) {
 }
 
 // return true if a value was specified
-func (p *parser) parseFeatureValuePostfix() (uint32, bool) {
+func (p *parser) parseFeatureValuePostfix() (_ uint32, hadValue bool, err error) {
 	/* CSS doesn't use equal-sign between tag and value.
 	 * If there was an equal-sign, then there *must* be a value.
 	 * A value without an equal-sign is ok, but not required. */
-	p.parseChar('=')
+	hadEqual := p.parseChar('=')
 
 	val, hadValue := p.parseUint32()
 	if !hadValue {
 		val, hadValue = p.parseBool()
 	}
-	return val, hadValue
+	if hadEqual && !hadValue {
+		return 0, false, errors.New("expecting a feature value after =")
+	}
+	return val, hadValue, nil
 }
 
 func (p *parser) parseFeatureValuePrefix() uint32 {
@@ -431,10 +437,17 @@ func (p *parser) parseOneFeature() (feature Feature, err error) {
 	if err != nil {
 		return feature, err
 	}
-	if val, ok := p.parseFeatureValuePostfix(); ok {
+	val, ok, err := p.parseFeatureValuePostfix()
+	if err != nil {
+		return feature, err
+	}
+	if ok {
 		feature.Value = val
 	}
 	p.skipSpaces()
+	if p.pos != len(p.data) {
+		return feature, errors.New("unexpected characters after the feature")
+	}
 	return feature, nil
 }
 
